@@ -187,6 +187,12 @@ void FlexPath::apply_repetition(Array<FlexPath*>& result) {
     repetition.get_offsets(offsets);
     repetition.clear();
 
+    // A repetition with zero columns or rows has no offsets at all
+    if (offsets.count < 2) {
+        offsets.clear();
+        return;
+    }
+
     // Skip first offset (0, 0)
     Vec2* offset_p = offsets.items + 1;
     result.ensure_slots(offsets.count - 1);
